@@ -88,7 +88,8 @@ func must(err error) {
 
 var instants = []string{"2019-03-01T00:00:00Z", "2020-01-01T00:00:00Z", "2020-01-01T01:00:00Z", "2021-11-11T11:11:11.000000011Z", "2525-05-05T05:05:05Z"}
 var altZone = map[int]string{2: "2020-01-01T02:00:00+02:00"}
-var texts = []string{"a", "b", "c"}
+// texts in the order of their printed form; 5 and 6 contain what separates two cells in a group key of Reduce
+var texts = []string{"a", "b", "c", "p", "p\"^^type:text;\"q", "q\"^^type:text;\"r", "r"}
 var nodesU = [][2]string{{"/u", "a"}, {"/u", "b"}, {"/v", "a"}}
 
 func mkCell(c cellA, alt bool) *table.Cell {
@@ -386,7 +387,12 @@ func randCell(kind string) cellA {
 			return cellA{"T", 2}
 		}
 		return cellA{"T", 1 + rng.Intn(len(instants))}
-	case "X", "S", "N":
+	case "X":
+		if rng.Intn(4) == 0 {
+			return cellA{"X", 4 + rng.Intn(4)}
+		}
+		return cellA{"X", 1 + rng.Intn(3)}
+	case "S", "N":
 		return cellA{kind, 1 + rng.Intn(3)}
 	}
 	return cellA{"0", 0}
@@ -643,6 +649,8 @@ func allTables(bsets [][]string, cs []cellA, maxRows int) []tblA {
 	return out
 }
 
+var sepDone bool
+
 func runExhaustive(keep float64) {
 	cs := []cellA{{"I", 2}, {"I", 7}, {"0", 0}}
 	left := allTables([][]string{{"?a"}, {"?a", "?b"}}, cs, 2)
@@ -673,6 +681,15 @@ func runExhaustive(keep float64) {
 		for _, arg := range [][]string{{}, {"?a"}, {"?b"}, {"?a", "?b"}, {"?c"}} {
 			apply(mkTable(la, false), mkTable(empty, false), opArgs{op: "ProjectBindings", bsarg: arg})
 			apply(mkTable(la, false), mkTable(empty, false), opArgs{op: "AddBindings", bsarg: arg})
+		}
+		if !sepDone && len(la.Bs) == 2 {
+			sepDone = true
+			// two grouping columns of texts: the pairs (p"^^type:text;"q, r) and (p, q"^^type:text;"r) are different groups
+			tt := tblA{Bs: []string{"?a", "?b", "?c"}, Rows: []rowA{
+				{"?a": {"X", 5}, "?b": {"X", 7}, "?c": {"I", 1}}, {"?a": {"X", 4}, "?b": {"X", 6}, "?c": {"I", 2}},
+				{"?a": {"X", 4}, "?b": {"X", 7}, "?c": {"I", 3}}}}
+			apply(mkTable(tt, false), mkTable(empty, false), opArgs{op: "Reduce", keys: []string{"?a", "?b"},
+				aaps: []aapA{{"?a", "?a", ""}, {"?b", "?b", ""}, {"?c", "?n", "count"}}})
 		}
 		if len(la.Bs) == 2 {
 			for _, acc := range []string{"count", "countd", "sumi"} {
